@@ -222,7 +222,7 @@ def _drive(out: Outcome, name: str, ops: list[str], exp: list[str]) -> None:
 def run(env: Env) -> Outcome:
     out = Outcome()
     out.rule = ("CE: (expected, snapshot, event) triples, 70% with the buffer invariant; CR: arrival sequences of 1..12 events through the real "
-                "reducer + collect_events; direct (state, tick) pairs with prefix and earlier-round snapshots; live: fan-in workflows (collecting "
+                "reducer + collect_events; C09CH: schedules of arrivals / finishes for 1..4 workers (1..14 arrivals, bias 0.3..0.7, 30% stop mid-flight) through the real reducer + collect_events; direct (state, tick) pairs with prefix and earlier-round snapshots; live: fan-in workflows (collecting "
                 "step with 1..3 workers, gates), span fan-in (3 types, 2..3 rounds, a held straggler) and general specs under random "
                 "schedules; non-trivial = a list was returned / more than 2 ticks; distinct by op line / (spec, schedule)")
     case = (env.replay or {}).get("payload", {}).get("case") if env.replay is not None else None
